@@ -18,7 +18,8 @@ pub fn def() -> PropDef {
     }
 }
 
-const NAMES: [&str; 4] = ["S", "T", "Point", "E"];
+// type names a host may well use itself, including the names of this crate's own types
+const NAMES: [&str; 10] = ["S", "T", "Point", "E", "Duration", "Timestamp", "Value", "Map", "Key", "Option"];
 const FIELDS: [&str; 5] = ["a", "b", "x", "y", "name"];
 
 fn scalar(rng: &mut Rng) -> Any {
